@@ -287,8 +287,20 @@ def gen_scenario(rng, spec, m, nonlinear: bool):
         for i in range(-2, n + 3):
             if rng.chance(0.4):
                 exo.setdefault(w, {})[i] = dy(rng, -1, 1, 2) * (0.25 if nonlinear else 1.0)
+    # values MISSING in the input at cells that are not solved for: measurement variable absent / partly absent, exogenous value
+    # missing beyond the span, (rarely) a missing initial condition that some equation really reads
+    r2 = rng.fork("missing")
+    missing = {}
+    if spec["meas"] and r2.chance(0.5):
+        missing["obs"] = "absent" if r2.chance(0.4) else sorted(r2.sample(range(n), r2.randint(1, n)))
+    if spec["exo"] and r2.chance(0.4):
+        missing["exo_beyond"] = True
+    if r2.chance(0.12):
+        lagged = sorted(set((nm, sh) for e in spec["eqs"] for (nm, sh) in compile_equation(e)[1] if sh < 0 and nm in spec["tvars"]))
+        if lagged:
+            missing["init"] = list(r2.choice(lagged))
     return dict(freq=freq, start=start, n=n, unant=unant, ant=ant, init=init, exo=exo,
-                term_data=rng.chance(0.5))
+                term_data=rng.chance(0.5), missing=missing)
 
 
 def build_db(spec, m, sc):
@@ -316,7 +328,23 @@ def build_db(spec, m, sc):
                 p = start + sc["n"] - 1 + k
                 old = float(db[v].get_data(p).ravel()[0])
                 db[v][p] = old * 1.0625 if v in spec["logvars"] else old + 0.125 * k
+    apply_missing(db, spec, sc, start)
     return db, span
+
+
+def apply_missing(db, spec, sc, start):
+    mis = sc.get("missing") or {}
+    if mis.get("obs") == "absent":
+        del db["obs"]
+    elif mis.get("obs"):
+        for i in mis["obs"]:
+            db["obs"][start + int(i)] = float("nan")
+    if mis.get("exo_beyond"):
+        for w in spec["exo"]:
+            db[w][start + sc["n"]] = float("nan")       # first period after the span: read by no equation of the span
+    if mis.get("init"):
+        nm, sh = mis["init"]
+        db[nm][start + int(sh)] = float("nan")
 
 
 def build_model_variants(spec, nv):
@@ -361,6 +389,9 @@ def build_db_multi(spec, m, m1, scs):
         old = np.asarray(db[name].get_data(per), dtype=float).ravel()
         old = [float(old[min(v, len(old) - 1)]) for v in range(nv)]
         db[name][per] = [fns[v](old[v]) if fns[v] is not None else old[v] for v in range(nv)]
+    mis = dict(sc0.get("missing") or {})
+    mis.pop("init", None)
+    apply_missing(db, spec, dict(sc0, missing=mis), start)
     return db, span
 
 
@@ -508,7 +539,7 @@ def judge_run(ctx: Ctx, case, m, spec, db, span, method, terminal, out, info, fo
 
     # (1) inputs returned as they came in: shocks, exogenous, measurement variables over the base span; initial conditions before it
     for nm in spec["shocks"] + ["ant_" + s for s in spec["shocks"]] + spec["exo"] + (["obs"] if spec["meas"] else []):
-        for s in range(base_lo, base_hi + 1):
+        for s in range(base_lo, base_hi + m.max_lead + 1):      # the terminal columns are returned too (remove_terminal=False)
             a, b = in_tab.get(nm, {}).get(s, float("nan")), out_tab.get(nm, {}).get(s, float("nan"))
             if (nm, s) in endo_pts:
                 continue
@@ -937,6 +968,32 @@ def lean_lines_for_case(ctx: Ctx, spec, sc, rng, want_resid=True):
         items.append(("spots", f"spots {len(endo)} " + " ".join(map(str, endo)) + f" {f.first} {f.simulation_last}",
                       " ".join(f"{t.qid}:{t.shift}" for t in spots), None))
 
+    # --- _catch_missing on arrays with missing values at solved-for and at other cells ---------
+    from irispie import wrongdoings as _wd
+    qid_to_name = m.create_qid_to_name()
+    for f in list(st_frames)[:1] + list(pp_frames)[-1:]:
+        cols = tuple(range(f.first, f.simulation_last + 1))
+        spots, _ = _st._get_wrt_spots(plan=None, endogenous_qids=tuple(endo), columns_to_run=cols,
+                                      periods_to_run=tuple(ds.periods[i] for i in cols), name_to_qid=name_to_qid)
+        data = np.array(main0, dtype=float)
+        for _ in range(rng.randint(1, 6)):
+            data[rng.randint(0, data.shape[0] - 1), rng.randint(0, data.shape[1] - 1)] = float("nan")
+        before = data.copy()
+        class _Rec(_wd.Stream):          # records what `_catch_missing` reports, never raises
+            def add(self, message):
+                self.messages += (message, )
+        stream = _Rec("missing")
+        try:
+            _st._catch_missing(data=data, wrt_spots=spots, frame=f, qid_to_name=qid_to_name, fallback_value=0.125,
+                               when_missing_stream=stream, periods=ds.periods)
+        except Exception as e:
+            ctx.count(f"catch:impl-raised:{type(e).__name__}")
+            continue
+        label = {f"{qid_to_name[t.qid]}[{ds.periods[t.shift]}]": f"{t.qid}:{t.shift}" for t in spots}
+        impl = (" ".join(label.get(msg, "?" + msg) for msg in stream.messages) + " | "
+                + " ".join(rat_of_float(x) if math.isfinite(x) else "nan" for x in data.ravel()))
+        items.append(("catch", f"catch {len(endo)} " + " ".join(map(str, endo)) + f" {f.first} {f.simulation_last} 1/8 " + data_text(before), impl, None))
+
     if spec["logvars"] or not want_resid:
         return items
     # --- residual vectors of the real evaluator -------------------------------------------
@@ -1024,11 +1081,11 @@ def compare_items(ctx: Ctx, items, replies):
     for (stream, req, impl, meta), rep in zip(items, replies):
         ctx.streams_compared[stream] = ctx.streams_compared.get(stream, 0) + 1
         short = req if len(req) < 1500 else req[:1500] + " ..."
-        if stream in ("frames", "writers", "spots"):
+        if stream in ("frames", "writers", "spots", "catch"):
             if rep != impl:
                 ctx.disagree(stream, {"request": req}, impl[:400], rep[:400])
             continue
-        if rep in ("bad-op", "nan", "singular"):
+        if rep == "bad-op" or (stream != "resid" and rep in ("nan", "singular")):    # a one-row residual vector may legitimately be `nan`
             ctx.disagree(stream, {"request": req}, "numeric reply expected", rep)
             continue
         if stream == "resid":
